@@ -15,21 +15,21 @@ import (
 
 // which violation keys decide which property
 var keyProps = map[string][]string{
-	"state-differs-from-replay":        {"C01"},
-	"state-differs-from-replay:total":  {"C01", "C02"},
-	"state-differs-from-replay:bal":    {"C01", "C02"},
+	"state-differs-from-replay":        {"C01", "C12"},
+	"state-differs-from-replay:total":  {"C01", "C02", "C12"},
+	"state-differs-from-replay:bal":    {"C01", "C02", "C12"},
 	"walked-differs-from-fresh-replay": {"C01"},
 	"replica-":                         {"C01"},
 	"walk-wrong-tip":                   {"C01"},
 	"state-tip-unknown":                {"C01"},
 	"reopen-failed":                    {"C01", "C05"},
-	"panic":                            {"C01", "C02", "C03", "C04", "C05", "C06", "C17", "C18"},
-	"conservation":                     {"C02"},
-	"admitted-":                        {"C03"},
+	"panic":                            {"C01", "C02", "C03", "C04", "C05", "C06", "C12", "C17", "C18"},
+	"conservation":                     {"C02", "C12"},
+	"admitted-":                        {"C03", "C12"},
 	"refused-although-current":         {"C03"},
-	"double-spend":                     {"C03"},
-	"double-supersede":                 {"C03"},
-	"pool-unexpected":                  {"C03"},
+	"double-spend":                     {"C03", "C12"},
+	"double-supersede":                 {"C03", "C12"},
+	"pool-unexpected":                  {"C03", "C12"},
 	"failed-":                          {"C05"},
 	"fault-ignored":                    {"C05"},
 	"running-differs-from-reopened":    {"C05"},
@@ -62,11 +62,11 @@ var profiles = map[string]*Profile{
 		W:         map[string]int{"xfer": 6, "ktx": 7, "mine": 4, "foreign": 4, "fork": 5, "walk": 4, "reopen": 1, "sync": 2, "xfer-bad": 1, "xfer-hold": 1, "submit-held": 1},
 		EndChecks: []string{"sync", "obs", "replica", "walk 0", "replica", "sync", "replica"}},
 	"C02": {Name: "amounts", Steps: 30, Fee: []bool{true}, Windows: []int64{0},
-		W:         map[string]int{"xfer": 10, "xfer-bad": 4, "mine": 4, "foreign": 3, "fork": 3, "walk": 3, "sync": 2, "resubmit": 1, "xfer-hold": 3, "submit-held": 3, "mine-auto": 2},
+		W:         map[string]int{"xfer": 10, "xfer-bad": 4, "mine": 4, "foreign": 3, "fork": 3, "walk": 3, "sync": 2, "resubmit": 1, "xfer-hold": 3, "submit-held": 3, "mine-auto": 2, "balrace": 3},
 		EndChecks: []string{"sync", "obs"}},
 	"C03": {Name: "conflicts", Steps: 36, Fee: []bool{false, true}, Windows: []int64{0},
 		W: map[string]int{"xfer": 5, "xfer-bad": 4, "resubmit": 3, "ktx": 5, "ktx-two": 5, "ktx-old": 3, "mine": 3, "foreign": 5, "fork": 3,
-			"walk": 2, "sync": 2, "badblock": 2, "xfer-hold": 2, "submit-held": 2},
+			"walk": 2, "sync": 2, "badblock": 2, "xfer-hold": 2, "submit-held": 2, "race": 4},
 		EndChecks: []string{"sync", "obs"}},
 	"C05": {Name: "failures", Steps: 30, Fee: []bool{false, true}, Windows: []int64{0, 2},
 		W: map[string]int{"xfer": 4, "xfer-bad": 5, "ktx": 4, "ktx-old": 3, "resubmit": 2, "badblock": 5, "mine": 3, "foreign": 3, "fork": 3,
@@ -75,6 +75,9 @@ var profiles = map[string]*Profile{
 	"C06": {Name: "crash", Steps: 26, Fee: []bool{false, true}, Windows: []int64{0},
 		W:         map[string]int{"xfer": 6, "ktx": 6, "mine": 5, "foreign": 5, "fork": 5, "walk": 3, "sync": 3, "xfer-bad": 1, "truncate": 2},
 		EndChecks: []string{"crashcheck 120"}},
+	"C12": {Name: "schedules", Steps: 30, Fee: []bool{false, true}, Windows: []int64{0},
+		W:         map[string]int{"xfer": 4, "ktx": 4, "race": 10, "balrace": 6, "mine": 3, "foreign": 3, "fork": 2, "walk": 2, "sync": 2},
+		EndChecks: []string{"sync", "obs"}},
 	"C17": {Name: "finality", Steps: 34, Fee: []bool{false}, Windows: []int64{1, 2, 3, 0},
 		W:         map[string]int{"xfer": 2, "ktx": 2, "mine": 6, "foreign": 5, "fork": 7, "walk": 6, "sync": 3, "reopen": 2},
 		EndChecks: []string{"sync", "obs"}},
@@ -113,6 +116,7 @@ func main() {
 	defer filter()
 	if args.Replay != "" {
 		for _, l := range xvlib.ReadLines(args.Replay) {
+			out.Begin(l)
 			a := ex.exec(l)
 			out.Emit(l, cmpAns(l, a))
 			out.Case(l, true)
@@ -125,6 +129,7 @@ func main() {
 		for _, f := range files {
 			var canon []string
 			for _, l := range xvlib.ReadLines(f) {
+				out.Begin(l)
 				a := ex.exec(l)
 				out.Emit(l, cmpAns(l, a))
 				canon = append(canon, l)
